@@ -1777,6 +1777,8 @@ bn_clz(bn_p bn) {
 
 	if (NULL == bn)
 		return (0);
+	if (0 == bn->digits) /* bn = 0: no num[(digits - 1)] to look at. */
+		return ((BN_DIGIT_BITS * bn->count));
 	return (((BN_DIGIT_BITS * (bn->count - bn->digits)) +
 	    bn_digit_clz(bn->num[(bn->digits - 1)])));
 }
